@@ -519,7 +519,7 @@ def oracle(run, spec, td, op, impl, raw, site="shape_op", fp_prefix=""):
         if got_keys != spec_keys(spec):
             run.oracle_fail(site, case, f"keys {got_keys} expected {spec_keys(spec)}", f"{opn}:keys")
             return False
-        bad = check_entries(r, spec, n, ref, ())
+        bad = check_entries(r, spec, n, ref, (), keep_names=(want_names if opn in NAME_KEEPING_OPS else None))
         if bad:
             run.oracle_fail(site, case, bad, f"{opn}:{bad.split(' ')[0]}")
             return False
@@ -545,7 +545,12 @@ def incoherent(td):
     return None
 
 
-def check_entries(r, spec, n, ref, prefix):
+# ops under which every dim keeps its identity (names travel, also in nested tensordicts); view / reshape re-cut the dims (names erased by
+# design), expand is left to the correspondence
+NAME_KEEPING_OPS = ("squeeze", "unsqueeze", "transpose", "permute", "flatten", "unflatten", "unbind", "split", "splitlist", "chunk")
+
+
+def check_entries(r, spec, n, ref, prefix, keep_names=None):
     """every leaf equals `source.reshape(numel(batch), *rest)[ref]` (the op on the batch dims, rest untouched);
     every nested node has batch `ref.shape + ext`"""
     for k, e in spec[3]:
@@ -565,11 +570,13 @@ def check_entries(r, spec, n, ref, prefix):
             ext = e[1][n:]
             if tuple(v.batch_size) != tuple(ref.shape) + tuple(ext):
                 return f"nested-batch {prefix + (k,)}: {tuple(v.batch_size)} expected {tuple(ref.shape) + tuple(ext)}"
-            if e[2] is not None:
-                got = list(v.names)[len(ref.shape):]
-                if got != list(e[2][n:]) and spec_op_keeps_trailing_names(v):
-                    return f"nested-names {prefix + (k,)}: trailing names {got} expected {list(e[2][n:])}"
-            bad = check_entries(v, e, n, ref, prefix + (k,))
+            if e[2] is not None and keep_names is not None:
+                # "names travel with their dims … nested tensordicts are transformed recursively": the nested result is named like the
+                # parent on the parent's dims ('*' = any) and keeps the names of its own extra dims
+                want = list(keep_names) + list(e[2][n:])
+                if not names_ok(list(v.names), want):
+                    return f"nested-names {prefix + (k,)}: {list(v.names)} expected {want}"
+            bad = check_entries(v, e, n, ref, prefix + (k,), keep_names=(list(keep_names) + list(e[2][n:]) if keep_names is not None and e[2] is not None else None))
             if bad:
                 return bad
     return None
